@@ -56,6 +56,27 @@ def run_twin(case):
     return {"nontrivial": sum(nts) >= 1 and "twins transmitting at the same time" in classes, "classes": sorted(classes)}
 
 
+def run_detached(case):
+    """the same workload served twice: with a recording next hop and with no next hop at all (out = None). Handing a packet on
+    schedules nothing, so the two runs must agree step by step on the clock, the per-flow counters and the packet in service"""
+    a = schedlab.Run(case)
+    a.go()
+    info = judge(a, case)
+    b = schedlab.Run(case, detach_out=True)
+    b.go()
+    for i, (sa, sb) in enumerate(zip(a.states, b.states)):
+        if sa != sb:
+            raise Violation("C12.counters", f"without a next hop, after step {i + 1}: (now, (flow, size, bytes)..., packet in service) = "
+                                            f"{sb}, with a next hop {sa}", "C12.counters/no-next-hop")
+    if len(a.states) != len(b.states):
+        raise Violation("C12.counters", f"{len(b.states)} steps without a next hop, {len(a.states)} with one", "C12.counters/no-next-hop-steps")
+    p = b.sched.packet_in_service
+    if p is not None or b.sched.total_packets != 0:
+        raise Violation("C12.in_service", f"after the last transmission: packet_in_service={p!r}, total_packets={b.sched.total_packets}",
+                        "C12.in_service/idle-no-next-hop")
+    return {"nontrivial": info["nontrivial"], "classes": sorted(set(info["classes"]) | {"served without a next hop"})}
+
+
 def judge(run, case):
     classes = {case["kind"]}
     run.check_all_exited()
@@ -146,7 +167,7 @@ def table_strategy(kind):
     """(table, f2c, flows) for a scheduler kind; many-to-one maps use class ids disjoint from flow ids"""
     nfl = st.integers(1, 5)
     if kind == "SP":
-        val = st.integers(1, 4)
+        val = kgen.weighted([(st.integers(1, 4), 3), (st.sampled_from([1.25, 1.75, 0.5, 2.5]), 1)])
     elif kind == "VC":
         val = st.sampled_from([1 / 8, 1 / 4, 1 / 2, 1, 2, 0.3, 0, 0])
     elif kind in ("WRR", "DRR"):
@@ -234,6 +255,8 @@ PROP = Property(
           "Monitor samples at off-grid instants equal those numbers with the packet in service included/excluded. Non-trivial "
           "= a busy period with >=3 packets from >=2 flows and an arrival exactly at a transmission end."),
     facets=[facet_for(k) for k in schedlab.KINDS] + [
+        Facet("no_next_hop", lambda tier: st.sampled_from(list(schedlab.KINDS)).flatmap(lambda k: spec_strategy(k, tier, exact_only=True)),
+              run_detached, quick=300, thorough=2000, essential=["served without a next hop"]),
         Facet("twin", twin_strategy, run_twin, quick=400, thorough=2500,
               essential=["twins transmitting at the same time", "busy period >=3 packets from >=2 flows"]),
         Facet("monitor", monitor_strategy, run_monitor, quick=500, thorough=3000,
